@@ -32,8 +32,8 @@ Section Js.
 Import PrintModel PrintSpec PrintGen PrintProofs PrintGroup.
 Theorem js_output_derivable : forall e, wf 0 e -> D 0 (print T_gen 0 e) (strip T_gen 0 e).
 Proof. intros e H. apply PrintProofs.print_derives_top; [vm_compute; reflexivity | exact H]. Qed.
-Theorem js_second_pass_stable : forall T e p, print T p (strip T p e) = print T p e.
-Proof. exact PrintProofs.strip_print_stable. Qed.
+Theorem js_second_pass_stable : forall e p, print T_gen p (strip T_gen p e) = print T_gen p e.
+Proof. apply PrintProofs.strip_print_stable. vm_compute. reflexivity. Qed.
 Theorem js_rewrites_stay_parser_shaped : forall s, In s js_group_sites -> gsite_ok T_gen s = true.
 Proof. apply forallb_forall. vm_compute. reflexivity. Qed.
 End Js.
